@@ -322,6 +322,13 @@ def createResponse (reqId reqQf : Nat) (reqQuery : Bytes) (bodyFormat : Nat) (bo
 def createResponseUnstamped (reqId reqQf : Nat) (bodyFormat : Nat) (body : Bytes) : Message :=
   (Builder.mk reqId false 0 (responseQueryFormat reqQf) bodyFormat [] body).build
 
+def BEVE_FORMAT : Nat := 1
+
+/-- `write_message_typed_slice` / `write_message_complex_slice`: set `body_format` to BEVE **whatever the header passed in
+says**, then stream with the BEVE payload (`payload` = the bytes `beve::to_writer_*_slice` produces: a parameter). -/
+def writeMessageSlice (h : Header) (q payload : Bytes) : Bytes :=
+  writeMessageStreaming { h with bodyFormat := BEVE_FORMAT } q payload
+
 /-- Read up to `n` frames one after another from one stream with one reader (each successful read
 consumes exactly the frame it returned; the into-readers return what they leave in the reused buffer):
 the frames read and the unread rest. Stops at the first failure. -/
